@@ -21,7 +21,11 @@ macro_rules! entry {
 		let name = stringify!($t);
 		if $filter.map_or(true, |f: &str| name.contains(f)) {
 			let o = TypeOpts { zero_width_elems: $zw, small_alphabet: $small, budget: $b };
-			if $stream == "mem" {
+			if $stream == "mel" {
+				#[allow(unused_imports)]
+				use crate::probe::{Fallback, Probe};
+				crate::streams::run_mel_type::<$t>($ctx, name, &o, <Probe<$t>>::mel(), <Probe<$t>>::IS_CEL);
+			} else if $stream == "mem" {
 				crate::streams::run_mem_type::<$t>($ctx, name, &o);
 			} else {
 				run_type::<$t>($ctx, $stream, name, &o);
@@ -33,7 +37,14 @@ macro_rules! entry {
 macro_rules! nomem { ($ctx:expr, $s:expr, $f:expr; $($t:ty),* $(,)?) => { $( {
 	let name = stringify!($t);
 	if $f.map_or(true, |f: &str| name.contains(f)) {
-		run_type::<$t>($ctx, $s, name, &TypeOpts { zero_width_elems: false, small_alphabet: false, budget: 24 });
+		let o = TypeOpts { zero_width_elems: false, small_alphabet: false, budget: 24 };
+		if $s == "mel" {
+			#[allow(unused_imports)]
+			use crate::probe::{Fallback, Probe};
+			crate::streams::run_mel_type::<$t>($ctx, name, &o, <Probe<$t>>::mel(), <Probe<$t>>::IS_CEL);
+		} else {
+			run_type::<$t>($ctx, $s, name, &o);
+		}
 	}
 } )* } }
 macro_rules! plain { ($ctx:expr, $s:expr, $f:expr; $($t:ty),* $(,)?) => { $( entry!($ctx, $s, $f, $t, zw=false, small=false, budget=24); )* } }
@@ -73,6 +84,8 @@ pub fn run_all(ctx: &mut Ctx, stream: &str) {
 		Range<u8>, Range<u32>, RangeInclusive<i16>, RangeInclusive<u64>, Range<Compact<u32>>,
 		TwinU32, TwinU8, Named, Skipper, CompactFields, UsesCompactAs, Mixed, Tree, Chain, Transparent,
 		Generic<u8, u16>, Generic<String, TwinU32>, Vec<Mixed>, Option<Named>, Box<Chain>, Vec<Skipper>, BTreeMap<u8, Mixed>,
+		MelEnum, MelGen<u32>, MelGen<u64>, MelGen<u8>, Option<MelEnum>, [MelGen<u16>; 2], (MelEnum, CompactFields), Box<CompactFields>,
+		Option<(u8, u16)>, Result<u32, (u8, u8)>, [(u8, bool); 3], Range<(u8, u8)>, Box<[u16; 4]>, Arc<(u8, u64)>, Rc<(u8, u64)>,
 	);
 	zerow!(ctx, stream, f; Vec<()>, VecDeque<()>, LinkedList<()>, Vec<UnitStruct>, Vec<PhantomData<u8>>, BTreeSet<()>,
 		Option<Vec<()>>, [(); 5], [UnitStruct; 3]);
